@@ -246,6 +246,14 @@ def check(R):
         keys = [prims.sources(nl, t.d['a'][1]) for t in nl.calls('persist::KvBlobStore::load')]
         R.expect('P10', nl.fn, 'networks are restored from NETWORKS_KEY or reset', any(any(x[0] == 'constp' and x[1].endswith('NETWORKS_KEY') for x in k) for k in keys)
                  and any(c_.endswith('::reset') for c_ in nl.calls_summary) and any(c_.endswith('::load') for c_ in nl.calls_summary), 'load(NETWORKS_KEY) / reset()', 'networks roll-back incomplete')
+        # ... unconditionally: whatever the in-memory network store says about itself (managed / unmanaged), every Ok of the roll-back
+        # closure has passed the reload from NETWORKS_KEY (a failed CommissioningComplete can leave staged networks marked managed)
+        loads = call_bbs(nl, 'persist::KvBlobStore::load')
+        oks_nl = ok_return_bbs(nl)
+        rd_nl = [bb for bb, k, pl_ in prims.result_defs(nl) if k == 'call' and pl_.get('f', '').endswith(('::load', '::reset'))]
+        miss = prims.precedes(nl, loads, oks_nl + rd_nl)
+        R.expect('P3', nl.fn, 'every successful network roll-back has reloaded NETWORKS_KEY from the store', bool(loads) and not miss, 'kv.load(NETWORKS_KEY) precedes every result',
+                 f'a result at {[nl.where(b) for b in miss]} is reached without consulting the store: staged network credentials survive the roll-back', nl.where(miss[0]) if miss else '')
         acc = [t for t in ex.calls() if t.d.get('f', '').endswith('KvBlobStoreAccess::access')]
         R.floor('kv.access in expire', len(acc), 1)
         after = R.call_guard(ex, acc[0].d['f'])
